@@ -34,7 +34,7 @@ m = dict(version=1,
                                       "cooperative scheduler, native go fuzzing) compiled inside the audito-maldito module "
                                       "through -overlay/-modfile from /repo's working tree; driver ./check (python3)")],
          checks=checks,
-         notes="Checks rebuild from /repo's working tree on every invocation. Exit 2 = inconclusive/infrastructure, never a violation.",
+         notes="Checks rebuild from /repo's working tree on every invocation. Exit 2 = inconclusive/infrastructure, never a violation. One step (c16.scaled) compiles /repo's current processors/auditd/auditd.go through the build overlay with the one-minute staleness constant replaced by 2 s (nothing in /repo is written; skipped when the constant's definition is not found exactly once); everything else compiles the tree unmodified with -tags verif.",
          not_applicable=na)
 json.dump(m, open(os.path.join(V, "MANIFEST.json"), "w"), indent=1)
 print("MANIFEST.json: %d checks, %d not claimed" % (len(checks), len(na)))
